@@ -42,7 +42,7 @@ Definition run_case (line : bytes) : outp :=
   | None => bad_case
   | Some (cfg, real, cs) =>
       let pred := render_outcome real (run_client cfg cs) in
-      let '(v, k) := spec_client (cctx_of cfg) (stream_of cs) in
+      let v := spec_client (cctx_of cfg) (stream_of cs) in
       let in_contract := chunks_nonempty cs in
       let sp := if negb in_contract then dash else
                 match parse_observation obstr with
@@ -56,7 +56,7 @@ Definition run_case (line : bytes) : outp :=
                     end
                 end in
       {| o_model := if lbeq pred obstr then B "OK" else B "MODEL-PREDICTS:" ++ pred;
-         o_spec := sp; o_class := if in_contract then klass_tok k else dash |}
+         o_spec := sp; o_class := dash |}
   end.
 
 Definition run (line : bytes) : bytes := render (run_case line).
